@@ -26,6 +26,7 @@ var (
 	flagPool   = flag.String("pool", "text", "substitution pool: text|csv|html|json|md")
 	flagUnq    = flag.Bool("unquote", false, "input lines are TLC CSVWrite lines: a TLA+ string literal holding JSON")
 	flagSelf   = flag.String("selftest", "", "run the lexer self-tests (html|md|json|all) and exit")
+	flagFinal  = flag.String("final", "", "append this op (for table 1) to every scenario: renderall")
 	flagBytes  = flag.Bool("bytes", false, "item strings are byte strings in Latin-1 transport (CSV family)")
 	flagMode   = flag.String("mode", "scenario", "scenario | registry | conc (special drivers)")
 )
@@ -94,6 +95,9 @@ func main() {
 		n++
 		if id == "" {
 			id = fmt.Sprintf("s%d", n)
+		}
+		if *flagFinal != "" {
+			ops = append(ops, M{"op": *flagFinal, "t": json.Number("1")})
 		}
 		var sub *substitution
 		if *flagSubst != 0 {
